@@ -8,6 +8,7 @@
 -/
 import Sq.Machine
 import SqLemmas.DictRefine
+import SqLemmas.ListRefine
 namespace SqProps.C14
 open Sq
 
@@ -203,4 +204,37 @@ example : WFD [] := wfd_nil
 example : absMap ([DOp.set ['a'] (.int 1), .set ['b'] (.int 2), .del ['a'], .set ['b'] (.int 3)].foldl implStep []) ['b']
     = some (.int 3) := by rfl
 
-end SqProps.C14
+/-! ### [B] lists through the heap (SqLemmas/ListRefine.lean) -/
+
+/-- **one list operation**: `push`, `pop` (last / at a position), `insert`, the store of `c[i] = v`, `del c[i]` do to the
+    object at address `a` exactly what Python's list does to the mathematical list (`specL`: append; removal at a
+    position, negative positions counted from the end; clamped insertion; replacement) — the new heap is the old one
+    with that object replaced — and fail, changing nothing, exactly when the specification refuses (empty pop, position
+    out of range, 10000 elements reached) -/
+theorem list_op_refines (s : BState) (a : Nat) (xs : List Val) (hg : s.heap.get? a = some (.list xs)) (op : LOp) :
+    match specL xs op with
+    | some ys => implL s a op = .ok { s with heap := s.heap.set a (.list ys) }
+    | none => ∃ e, implL s a op = .error e ∧ Refusal e := implL_refines s a xs hg op
+
+/-- **ops_refine for lists**: under any sequence of such operations the list object holds exactly the mathematical
+    list, and no other object, nor the random state, nor the pending engine answers change -/
+theorem ops_refine_list' (ops : List LOp) (s : BState) (a : Nat) (xs : List Val) (hg : s.heap.get? a = some (.list xs)) :
+    (runImplL s a ops).heap.get? a = some (.list (runSpecL xs ops)) ∧
+    (∀ b, b ≠ a → (runImplL s a ops).heap.get? b = s.heap.get? b) ∧
+    (runImplL s a ops).rng = s.rng ∧ (runImplL s a ops).rx = s.rx := ops_refine_list ops s a xs hg
+
+/-- the index normalisation of the builtins IS "negative positions count from the end" -/
+theorem index_normalisation (n : Nat) (i : Int) : normIndex n i = pos? n i := normIndex_eq_pos n i
+
+/-- a refusal is a language-level failure (ParserError / IndexError → ParserError at the call boundary), never an
+    unmodelled case -/
+example : Refusal (.parser "pop from empty list") ∧ Refusal .indexError ∧ ¬ Refusal (.unmodelled "x") :=
+  ⟨trivial, trivial, fun h => h⟩
+
+/-- non-vacuity: push 1, push 2, pop at -2, insert at 5 (clamped), write [0] = 9, refused pop at 7 -/
+example : runSpecL [] [.push (.int 1), .push (.int 2), .popAt (-2), .insert 5 (.int 3), .set 0 (.int 9), .popAt 7] =
+    [.int 9, .int 3] := by rfl
+example : (runImplL { heap := #[.list []], rng := 0, rx := [] } 0
+    [.push (.int 1), .push (.int 2), .popAt (-2), .insert 5 (.int 3), .set 0 (.int 9), .popAt 7]).heap.get? 0 =
+    some (.list [.int 9, .int 3]) := by rfl
+
